@@ -16,3 +16,6 @@ pub use crate::socket::remote_map::path_state_verif_hooks as path_state;
 pub use crate::address_lookup::verif_hooks as address_lookup;
 /// Named pause points (no-ops unless the current thread installed a callback).
 pub mod pause;
+
+/// TLS name encoding and certificate verifiers.
+pub use crate::tls::verif_hooks as tls;
